@@ -90,34 +90,61 @@ INPUTS = [""] + ["".join(p) for n in (1, 2, 3, 4) for p in itertools.product(SIG
 # ---------------------------------------------------------------------------------------------
 # term alphabet
 # ---------------------------------------------------------------------------------------------
+# CORE symbols are enumerated up to the full term size of the tier; EXTENDED symbols (boundary values,
+# naming / debug(), the same parser object used twice) up to one node less, and only in terms that
+# contain at least one of them (so no term is enumerated twice).
 
 LEAVES = [("char", "a"), ("char", "b"), ("inset", "ab"), ("string", "a", 1), ("string", "ab", 0),
           ("lit", "ab", False), ("lit", "Ab", True), ("litv", "ab", 0), ("any",), ("eof",)]
-BINARY = ["seq", "alt", "kl", "kr", "fb", "nfb", "until", "lift", "sepby", "rec"]
+EXT_LEAVES = [("litv", "b", None)]
+BINARY = ["seq", "alt", "kl", "kr", "fb", "nfb", "until", "lift", "liftbt", "sepby", "rec"]
 
 
 def unary(x):
     return [("many", x, 0), ("many", x, 1), ("many", x, 2), ("opt", x, None), ("opt", x, "D"),
-            ("map", x), ("mapbt", x), ("wrap", x), ("mark", x)]
+            ("map", x), ("mapbt", x), ("lift1bt", x), ("wrap", x), ("mark", x)]
+
+
+def ext_unary(x):
+    return [("many", x, 3), ("opt", x, 0), ("named", x), ("debug", x), ("twice", x), ("retry", x)]
 
 
 _TERMS = {}
+_EXT_IDS = set()            # ids of enumerated terms that contain an extended symbol (terms are kept alive in _TERMS)
 
 
-def terms_of_size(n):
-    """All terms with exactly n nodes, canonical order; sub-terms are shared objects."""
-    if n in _TERMS:
-        return _TERMS[n]
+def terms_of_size(n, ext=False):
+    """All terms with exactly n nodes over the core (ext=False) or core+extended alphabet, canonical
+    order; sub-terms are shared objects."""
+    key = (n, ext)
+    if key in _TERMS:
+        return _TERMS[key]
     if n == 1:
         out = list(LEAVES)
+        if ext:
+            out += EXT_LEAVES
+            _EXT_IDS.update(id(x) for x in EXT_LEAVES)
     else:
-        out = [u for x in terms_of_size(n - 1) for u in unary(x)]
+        out = []
+        for x in terms_of_size(n - 1, ext):
+            us = unary(x)
+            if id(x) in _EXT_IDS:
+                _EXT_IDS.update(id(u) for u in us)
+            out.extend(us)
+            if ext:
+                us = ext_unary(x)
+                _EXT_IDS.update(id(u) for u in us)
+                out.extend(us)
         for i in range(1, n - 1):
-            for x in terms_of_size(i):
-                for y in terms_of_size(n - 1 - i):
+            for x in terms_of_size(i, ext):
+                for y in terms_of_size(n - 1 - i, ext):
+                    e = id(x) in _EXT_IDS or id(y) in _EXT_IDS
                     for b in BINARY:
-                        out.append((b, x, y))
-    _TERMS[n] = out
+                        t = (b, x, y)
+                        if e:
+                            _EXT_IDS.add(id(t))
+                        out.append(t)
+    _TERMS[key] = out
     return out
 
 
@@ -125,14 +152,42 @@ _ALL = {}
 
 
 def all_terms(max_nodes):
+    """Core terms with <= max_nodes nodes, then the terms with <= max_nodes - 1 nodes that contain an
+    extended symbol."""
     if max_nodes not in _ALL:
         out = []
-        bounds = []
         for n in range(1, max_nodes + 1):
             out.extend(terms_of_size(n))
-            bounds.append(len(out))
-        _ALL[max_nodes] = (out, bounds)
+        for n in range(1, max_nodes):
+            out.extend(t for t in terms_of_size(n, True) if id(t) in _EXT_IDS)
+        _ALL[max_nodes] = out
     return _ALL[max_nodes]
+
+
+def term_size(t):
+    return 1 + sum(term_size(c) for c in t[1:] if isinstance(c, (list, tuple)))
+
+
+def has_kind(t, kind):
+    if t[0] == kind:
+        return True
+    for c in t[1:]:
+        if isinstance(c, (list, tuple)) and has_kind(c, kind):
+            return True
+    return False
+
+
+def is_extended(t):
+    k = t[0]
+    if k in ("named", "debug", "twice", "retry"):
+        return True
+    if k == "many" and t[2] == 3:
+        return True
+    if k == "opt" and t[2] is not None and t[2] != "D":
+        return True
+    if k == "litv" and t[2] is None:
+        return True
+    return any(is_extended(c) for c in t[1:] if isinstance(c, (list, tuple)))
 
 
 # ---------------------------------------------------------------------------------------------
@@ -150,18 +205,28 @@ def P():
     return _P
 
 
-def F_TOTAL(v):
-    return ("m", v)
-
-
-def F_LIFT(a, b):
-    return ("L", a, b)
-
-
 def G(v):
     if peg.G_backtracks(v):
         raise P().Backtrack("odd length")
     return ("g", v)
+
+
+def H1(v):
+    if peg.G_backtracks(v):
+        raise P().Backtrack("odd length")
+    return ("h", v)
+
+
+def H2(a, b):
+    if peg.H2_backtracks(a, b):
+        raise P().Backtrack("odd length")
+    return ("H", a, b)
+
+
+def _own(b):
+    """% and debug() modify the parser object: never hand them one of the module's shared instances."""
+    p = P()
+    return p.Wrapper(b) if (b is p.AnyChar or b is p.EOF) else b
 
 
 def build(t):
@@ -186,13 +251,25 @@ def build(t):
     if k == "opt":
         return p.Opt(build(t[1])) if t[2] is None else p.Opt(build(t[1]), default=t[2])
     if k == "map":
-        return build(t[1]).map(F_TOTAL)
+        return build(t[1]).map(peg.F_total)
     if k == "mapbt":
         return p.Map(build(t[1]), G)
+    if k == "lift1bt":
+        return p.Lift(H1) * build(t[1])
     if k == "wrap":
         return p.Wrapper(build(t[1]))
     if k == "mark":
         return p.PosMarker(build(t[1]))
+    if k == "named":
+        return _own(build(t[1])) % "nm"
+    if k == "debug":
+        return _own(build(t[1])).debug()
+    if k == "twice":                    # the same parser OBJECT twice in one grammar
+        b = build(t[1])
+        return p.Lift(peg.F_lift) * b * b
+    if k == "retry":                    # the same parser OBJECT re-tried from the same position after a failure
+        b = build(t[1])
+        return (b << p.EOF) | b
     if k == "seq":
         return build(t[1]) + build(t[2])
     if k == "alt":
@@ -208,7 +285,9 @@ def build(t):
     if k == "until":
         return build(t[1]).until(build(t[2]))
     if k == "lift":
-        return p.Lift(F_LIFT) * build(t[1]) * build(t[2])
+        return p.Lift(peg.F_lift) * build(t[1]) * build(t[2])
+    if k == "liftbt":
+        return p.Lift(H2) * build(t[1]) * build(t[2])
     if k == "sepby":
         return build(t[1]).sep_by(build(t[2]))
     if k == "rec":
